@@ -8,7 +8,7 @@ use serde_json::{json, Value};
 use std::collections::{BTreeMap, BTreeSet};
 use std::io::Write;
 
-pub const CLAIMED: [&str; 12] = ["C01", "C04", "C05", "C06", "C07", "C09", "C10", "C15", "C19", "C20", "C11", "C17"];
+pub const CLAIMED: [&str; 15] = ["C01", "C04", "C05", "C06", "C07", "C09", "C10", "C15", "C19", "C20", "C11", "C17", "C08", "C14", "C18"];
 
 pub fn verif_dir() -> String {
     std::env::var("VERIF_DIR").unwrap_or_else(|_| "/verif".to_string())
